@@ -71,6 +71,7 @@ inductive Expr
   | len (e : Expr)
   | isTuple (e : Expr)
   | isNone (e : Expr)                 -- `e is None`
+  | ite (c a b : Expr)                -- `a if c else b`
   deriving Repr, Inhabited
 
 inductive Stmt
@@ -175,6 +176,9 @@ def eval (env : Env) : Expr → Except String PyVal
     match v with
     | .none => .ok (.bool true)
     | _ => .ok (.bool false)
+  | .ite c a b => do
+    let x ← eval env c
+    if x.truthy then eval env a else eval env b
 def evalOptInt (env : Env) : Option Expr → Except String (Option Int)
   | Option.none => .ok Option.none
   | Option.some x => do
